@@ -15,8 +15,11 @@ package c09
 
 import (
 	"bytes"
+	"encoding/base64"
+	"encoding/binary"
 	"encoding/xml"
 	"fmt"
+	"hash/crc32"
 	"io"
 	"math/rand"
 	"sort"
@@ -373,8 +376,51 @@ func (p *prog) stepRefusedWrite(k *kmodel) {
 	w := p.newWrite()
 	cl, gi := p.mcl()
 	var hdr []string
-	kind := []string{"malformed-tagging", "legal-hold-without-lock", "wrong-content-md5"}[p.r.Intn(3)]
+	kind := []string{"malformed-tagging", "legal-hold-without-lock", "wrong-content-md5", "complete-with-wrong-checksum"}[p.r.Intn(4)]
 	switch kind {
+	case "complete-with-wrong-checksum":
+		// a multipart upload with a full-object CRC32 whose completion declares another checksum: the refusal comes
+		// after the parts have been assembled
+		sum := func(b []byte) string {
+			var x [4]byte
+			binary.BigEndian.PutUint32(x[:], crc32.ChecksumIEEE(b))
+			return base64.StdEncoding.EncodeToString(x[:])
+		}
+		id, r := cl.CreateMPU(p.b, k.name, append(w.Hdr(), "X-Amz-Checksum-Algorithm", "CRC32", "X-Amz-Checksum-Type", "FULL_OBJECT")...)
+		if !r.OK() {
+			if r.Err != nil {
+				p.transport("refused-write", r)
+			} else {
+				p.c.Observe("create multipart upload with checksum settings refused: " + r.String())
+			}
+			return
+		}
+		r1 := cl.UploadPart(p.b, k.name, id, 1, w.Body, "X-Amz-Checksum-Crc32", sum(w.Body))
+		if !r1.OK() {
+			if r1.Err != nil {
+				p.transport("refused-write", r1)
+			} else {
+				p.c.Observe("upload part with checksum refused: " + r1.String())
+			}
+			return
+		}
+		p.ws.AliasETag(s3c.MultipartETag([][]byte{w.Body}), w)
+		cx := fmt.Sprintf(`<CompleteMultipartUpload xmlns="http://s3.amazonaws.com/doc/2006-03-01/"><Part><PartNumber>1</PartNumber><ETag>%s</ETag><ChecksumCRC32>%s</ChecksumCRC32></Part></CompleteMultipartUpload>`, strings.Trim(r1.Header.Get("Etag"), `"`), sum(w.Body))
+		rc := cl.Do(&s3c.Req{Method: "POST", Path: s3c.ObjPath(p.b, k.name), Query: s3c.Q("uploadId", id), Body: []byte(cx),
+			Header: s3c.H{{"X-Amz-Checksum-Crc32", sum([]byte("other bytes"))}, {"X-Amz-Checksum-Type", "FULL_OBJECT"}}})
+		p.tr("MPU %s (%s, write %d) via gw%d -> %s", k.name, kind, w.ID, gi, rc)
+		if rc.Err != nil {
+			p.transport("refused-write", rc)
+			return
+		}
+		p.c.Eval(1)
+		if rc.OK() && !bytes.Contains(rc.Body, []byte("<Error>")) {
+			p.ackWrite(k, "mpu", rc, w.ID, p.lastCtx)
+			return
+		}
+		cl.AbortMPU(p.b, k.name, id)
+		p.distinct("refused-write", kind, k)
+		return
 	case "malformed-tagging":
 		hdr = append(w.Hdr(), "X-Amz-Tagging", "project=a=b")
 	case "legal-hold-without-lock":
@@ -414,6 +460,29 @@ func (p *prog) stepCopy(k *kmodel) {
 				}
 			}
 		}
+	}
+	// a source key whose newest entry is a delete marker reads as missing - also to a copy
+	var gone []*kmodel
+	for _, o := range p.keys {
+		if t := o.top(); o != k && t != nil && t.Marker && len(o.stack) > 1 {
+			gone = append(gone, o)
+		}
+	}
+	if len(gone) > 0 && p.r.Intn(3) == 0 {
+		o := gone[p.r.Intn(len(gone))]
+		r := cl.CopyObject(p.b, o.name, p.b, k.name)
+		p.tr("COPY %s (newest entry is a delete marker) -> %s via gw%d -> %s", o.name, k.name, gi, r)
+		if r.Err != nil {
+			p.transport("copy", r)
+			return
+		}
+		p.c.Eval(1)
+		if r.OK() && !bytes.Contains(r.Body, []byte("<Error>")) {
+			p.viol("copy:source-read-through-its-delete-marker", true, fmt.Sprintf("CopyObject from %s, whose newest entry is a delete marker (the key reads as missing), answered %s and wrote %s", o.name, r, k.name), nil)
+			return
+		}
+		p.distinct("copy-from-deleted-key", statusClass(r), k)
+		return
 	}
 	if len(cands) > 0 && p.r.Intn(4) == 0 {
 		s := cands[p.r.Intn(len(cands))]
